@@ -1148,3 +1148,138 @@ Theorem C20_arcslab_example :
      Some (RcStore.ARGone 1); Some RcStore.ARAdded; Some (RcStore.ARGone 2); None; None].
 Proof. exact (conj ArcSlabExamples.ex_item_ops_ok ArcSlabExamples.ex_equiv). Qed.
 Print Assumptions C20_arcslab_example.
+
+(** ** GLUE: the table-isomorphism checker the correspondence drivers call (DD/IsoCheck.v, extracted)
+
+    [IsoCheck.iso_with ix rc onto fixed s_m s_r roots = Some r]: the model's table [s_m] is the real table
+    [s_r] up to a renaming of node ids that keeps the [fixed] ids and maps the root pairs onto each other
+    ([onto] = false: [s_r] may hold further nodes; [rc]: reference counts compared as well).  [iso_rel] is the
+    relational notion; by [C20_iso_rel_rename] it says that [rename_snap rho s_m] (DD/Rename.v) and [s_r]
+    store the same nodes. *)
+From OxiVerif Require DD.IsoCheck DD.IsoCheckProofs.
+
+(* soundness, for whatever index the driver passes: a globally injective renaming that extends the answer *)
+Theorem C20_iso_check_sound : forall ix rc onto fixed s_m s_r roots r,
+  IsoCheck.iso_with ix rc onto fixed s_m s_r roots = Some r ->
+  exists rho, injective rho /\ IsoCheckProofs.agrees r rho /\
+    (forall a, IsoCheckProofs.in_m s_m a -> PositiveMap.find a r = Some (rho a)) /\
+    IsoCheckProofs.iso_rel rc onto fixed s_m s_r roots rho.
+Proof. exact IsoCheckProofs.iso_with_sound. Qed.
+Print Assumptions C20_iso_check_sound.
+
+(* completeness on well-formed tables: whenever a renaming exists the checker finds it *)
+Theorem C20_iso_check_complete : forall rc onto fixed s_m s_r roots rho,
+  WF s_m -> WF s_r -> IsoCheckProofs.iso_rel rc onto fixed s_m s_r roots rho ->
+  exists r, IsoCheck.iso_core rc onto fixed s_m s_r roots = Some r /\
+            forall a, IsoCheckProofs.in_m s_m a -> PositiveMap.find a r = Some (rho a).
+Proof. exact IsoCheckProofs.iso_core_complete_wf. Qed.
+Print Assumptions C20_iso_check_complete.
+
+(* ... under exactly the parts of WF that are needed: model table closed with deeper children, real table duplicate-free *)
+Theorem C20_iso_check_complete_gen : forall rc onto fixed s_m s_r roots rho,
+  IsoCheckProofs.iso_rel rc onto fixed s_m s_r roots rho ->
+  (forall a nd, find_node s_m a = Some nd -> nlevel nd < nlevels s_m) ->
+  (forall a nd e c, find_node s_m a = Some nd -> In e (nchildren nd) -> eref e = RN c ->
+     exists ndc, find_node s_m c = Some ndc /\ nlevel nd < nlevel ndc) ->
+  (forall j1 j2 n1 n2, find_node s_r j1 = Some n1 -> find_node s_r j2 = Some n2 ->
+     nlevel n1 = nlevel n2 -> nchildren n1 = nchildren n2 -> j1 = j2) ->
+  exists r, IsoCheck.iso_core rc onto fixed s_m s_r roots = Some r /\
+            forall a, IsoCheckProofs.in_m s_m a -> PositiveMap.find a r = Some (rho a).
+Proof. exact IsoCheckProofs.iso_core_complete. Qed.
+Print Assumptions C20_iso_check_complete_gen.
+
+(* semantics: accepted root pairs have the same value under every choice (all five kinds) ... *)
+Theorem C20_iso_check_sem : forall ix rc onto fixed s_m s_r roots r,
+  IsoCheck.iso_with ix rc onto fixed s_m s_r roots = Some r -> IsoCheck.hdr_eqb s_m s_r = true ->
+  IsoCheckProofs.closed s_m ->
+  forall p, In p roots -> forall c, sem_edge s_r (snd p) c = sem_edge s_m (fst p) c.
+Proof. exact IsoCheckProofs.iso_with_sem. Qed.
+Print Assumptions C20_iso_check_sem.
+
+(* ... and denote the same ZBDD family *)
+Theorem C20_iso_check_famz : forall ix rc onto fixed s_m s_r roots r,
+  IsoCheck.iso_with ix rc onto fixed s_m s_r roots = Some r -> IsoCheck.hdr_eqb s_m s_r = true ->
+  IsoCheckProofs.closed s_m ->
+  forall p, In p roots -> forall f, famz s_r f (eref (snd p)) = famz s_m f (eref (fst p)).
+Proof. exact IsoCheckProofs.iso_with_famz. Qed.
+Print Assumptions C20_iso_check_famz.
+
+Theorem C20_iso_wf_closed : forall s, WF s -> IsoCheckProofs.closed s.
+Proof. exact IsoCheckProofs.wf_closed. Qed.
+Print Assumptions C20_iso_wf_closed.
+
+(* the relation in terms of DD/Rename.v, both directions *)
+Theorem C20_iso_rel_rename : forall rc fixed s_m s_r roots rho, injective rho ->
+  IsoCheckProofs.iso_rel rc true fixed s_m s_r roots rho ->
+  forall j, option_map IsoCheckProofs.norc (find_node (rename_snap rho s_m) j)
+            = option_map IsoCheckProofs.norc (find_node s_r j) /\
+            (rc = true -> find_node (rename_snap rho s_m) j = find_node s_r j).
+Proof. exact IsoCheckProofs.iso_rel_rename. Qed.
+Print Assumptions C20_iso_rel_rename.
+
+Theorem C20_rename_iso_rel : forall fixed s_m s_r roots rho, injective rho ->
+  (forall j, option_map IsoCheckProofs.norc (find_node (rename_snap rho s_m) j)
+             = option_map IsoCheckProofs.norc (find_node s_r j)) ->
+  (forall a, IsoCheckProofs.in_m s_m a -> fixed a = true -> rho a = a) ->
+  (forall p, In p roots -> IsoCheckProofs.root_in s_m (fst p) /\ rename_edge rho (fst p) = snd p) ->
+  IsoCheckProofs.iso_rel false true fixed s_m s_r roots rho.
+Proof. exact IsoCheckProofs.rename_iso_rel. Qed.
+Print Assumptions C20_rename_iso_rel.
+
+(* the form with the table before the operation: its nodes are stored unchanged in both tables and keep their ids *)
+Theorem C20_iso_ext_sound : forall old s_m s_r roots r, IsoCheck.iso_ext_b old s_m s_r roots = Some r ->
+  IsoCheckProofs.old_in old s_m /\ IsoCheckProofs.old_in old s_r /\
+  exists rho, injective rho /\ (forall a, IsoCheckProofs.in_m s_m a -> PositiveMap.find a r = Some (rho a)) /\
+    (forall a, IsoCheckProofs.in_m old a -> rho a = a) /\
+    IsoCheckProofs.iso_rel false true (IsoCheck.in_snap_b old) s_m s_r roots rho.
+Proof. exact IsoCheckProofs.iso_ext_b_sound. Qed.
+Print Assumptions C20_iso_ext_sound.
+
+Theorem C20_iso_ext_complete : forall old s_m s_r roots rho, WF s_m -> WF s_r ->
+  IsoCheckProofs.old_in old s_m -> IsoCheckProofs.old_in old s_r ->
+  IsoCheckProofs.iso_rel false true (IsoCheck.in_snap_b old) s_m s_r roots rho ->
+  exists r, IsoCheck.iso_ext_b old s_m s_r roots = Some r /\
+            forall a, IsoCheckProofs.in_m s_m a -> PositiveMap.find a r = Some (rho a).
+Proof. exact IsoCheckProofs.iso_ext_b_complete. Qed.
+Print Assumptions C20_iso_ext_complete.
+
+(* whole snapshots (what the level-swap replay of C08 calls): header and handle slots literally, nodes and handle edges up to the renaming *)
+Theorem C20_iso_snap_sound : forall fixed s_m s_r roots r, IsoCheck.iso_snap_b fixed s_m s_r roots = Some r ->
+  s_kind s_m = s_kind s_r /\ s_v2l s_m = s_v2l s_r /\ s_l2v s_m = s_l2v s_r /\ s_terms s_m = s_terms s_r /\
+  map fst (s_handles s_m) = map fst (s_handles s_r) /\
+  exists rho, injective rho /\ (forall a, IsoCheckProofs.in_m s_m a -> PositiveMap.find a r = Some (rho a)) /\
+    IsoCheckProofs.iso_rel false true fixed s_m s_r
+      (combine (map snd (s_handles s_m)) (map snd (s_handles s_r)) ++ roots) rho.
+Proof. exact IsoCheckProofs.iso_snap_b_sound. Qed.
+Print Assumptions C20_iso_snap_sound.
+
+(* the relation unfolded (so that the statements above can be read without the proof files) *)
+Theorem C20_iso_rel_def : forall rc onto fixed s_m s_r roots rho,
+  IsoCheckProofs.iso_rel rc onto fixed s_m s_r roots rho <->
+  ((forall a b, (exists nd, find_node s_m a = Some nd) -> (exists nd, find_node s_m b = Some nd) -> rho a = rho b -> a = b) /\
+   (forall a, (exists nd, find_node s_m a = Some nd) -> fixed a = true -> rho a = a) /\
+   (forall a nd, find_node s_m a = Some nd -> exists nd', find_node s_r (rho a) = Some nd' /\
+      nlevel nd = nlevel nd' /\ nstored nd = nstored nd' /\ (rc = true -> nrc nd = nrc nd') /\
+      map (rename_edge rho) (nchildren nd) = nchildren nd') /\
+   (onto = true -> forall j nd', find_node s_r j = Some nd' -> exists a, (exists nd, find_node s_m a = Some nd) /\ rho a = j) /\
+   (forall p, In p roots ->
+      match eref (fst p) with RN id => exists nd, find_node s_m id = Some nd | RT _ => True end /\
+      rename_edge rho (fst p) = snd p)).
+Proof.
+  intros. split.
+  - intros [H1 H2 H3 H4 H5]. repeat split; auto; apply (H5 p H).
+  - intros [H1 [H2 [H3 [H4 H5]]]]. constructor; auto.
+Qed.
+Print Assumptions C20_iso_rel_def.
+
+Theorem C20_iso_check_example :
+  wf_b (IsoCheckProofs.ex_tab 5 (RT 0)) = true /\ wf_b (IsoCheckProofs.ex_tab 9 (RT 0)) = true /\
+  option_map (fun r => (PositiveMap.find 1%positive r, PositiveMap.find 5%positive r))
+    (IsoCheck.iso_ext_b IsoCheckProofs.ex_old (IsoCheckProofs.ex_tab 5 (RT 0)) (IsoCheckProofs.ex_tab 9 (RT 0))
+       [(IsoCheckProofs.ex_e (RN 5), IsoCheckProofs.ex_e (RN 9))])
+  = Some (Some 1%positive, Some 9%positive) /\
+  IsoCheck.iso_ext_b IsoCheckProofs.ex_old (IsoCheckProofs.ex_tab 5 (RT 0)) (IsoCheckProofs.ex_tab 9 (RT 1)) [] = None.
+Proof.
+  destruct IsoCheckProofs.ex_iso_accepts as [H1 [H2 [H3 _]]]. destruct IsoCheckProofs.ex_iso_rejects as [H4 _]. auto.
+Qed.
+Print Assumptions C20_iso_check_example.
